@@ -12,7 +12,9 @@ of the three loops (`res_get`) · the gate theorems (`reject_blocks_body*`, `fir
 `required_*`, `nonrequired_none_passes_unvalidated`, `default_cascade`, `missing_without_default_blocks`) ·
 `res_only_chain_outputs` / `body_sees_only_chain_outputs` · dict and call-binding lemmas about the generated dispatch
 (`dispatch_unfold`, `callWith_split_eq`, `dispatch_eq_bindDict`; shared with `Props/C13.lean`, which imports this file) ·
-`gate_by_name_partial` with its negation witness `gate_by_name_full_fails` · which parameter a rejection names
+the receiver of a method, recognised by the signature (`receiver_by_signature` about the generated rule, `receiver_eq_spec`,
+`dispatch_ok_bindDict`) · `gate_by_name` for every call (`gate_by_name_full_proved`; the former failing input of the repaired finding
+`selfKeywordBypassesGate`: `fixed_self_keyword`) · which parameter a rejection names
 (`chainHandlerName_self` about the generated `from_validator_exception` rule, `rejection_names_the_rejecting_parameter`,
 `validate_independent_of_carried_names`, `validateParam_eq_relabel`, `call_rejection_names_the_rejecting_parameter`,
 `rejection_naming_partial` / `rejection_naming_full_fails`) · non-vacuity examples · the VAR_POSITIONAL parameter
@@ -28,22 +30,69 @@ open PedVerif.Gen.Validate
 /-! ## Basic lemmas -/
 
 /-- **C12 (strict, the generated tests).** In the branch "no Parameter declared for this key" the keyword loop raises
-    TooManyArguments iff `strict`, and the positional loop iff `strict` and the key is not **equal to** `self` (the receiver of
-    a method, which Python binds itself) — for every key: no other name is exempt, in particular no substring or superstring
-    of `self` (`s`, `e`, `l`, `f`, `se`, `el`, `lf`, `sel`, `elf`, `selfie`, …), nor `cls`, `args`, `kwargs`.  Proved about the
-    generated `kwStrictTest` / `posStrictTest`, so a membership / substring test that exempts more names breaks the proof. -/
+    TooManyArguments iff `strict`, and the positional loop iff `strict` and the key is not **the receiver's name** (`recv` =
+    `receiver_name`: `self` when the first parameter of the signature is called `self` — the receiver of a method, which Python
+    binds itself — and `None`, equal to no key, otherwise) — for every key: no other name is exempt, in particular no substring or
+    superstring of `self` (`s`, `e`, `l`, `f`, `se`, `el`, `lf`, `sel`, `elf`, `selfie`, …), nor `cls`, `args`, `kwargs`, nor
+    `self` itself when it is not the receiver (an ordinary parameter in a later position).  Proved about the generated
+    `kwStrictTest` / `posStrictTest`, so a membership / substring test that exempts more names breaks the proof. -/
 theorem strict_exempts_only_the_receiver :
-    (∀ strict k, kwStrictTest strict k = strict) ∧ (∀ strict k, posStrictTest strict k = (strict && k != selfName)) := by
-  refine ⟨?_, ?_⟩ <;> intro strict k <;> cases strict <;>
-    (by_cases h : k = 0
-     · subst h; simp [kwStrictTest, posStrictTest, selfName]
-     · have hb : (k == 0) = false := by simpa using h
-       have hb' : (0 == k) = false := by simpa using fun h' : 0 = k => h h'.symm
-       simp [kwStrictTest, posStrictTest, selfName, bne, hb, hb', h])
+    (∀ strict k, kwStrictTest strict k = strict) ∧
+    (∀ strict k (recv : Option Name), posStrictTest strict k recv = (strict && some k != recv)) := by
+  refine ⟨?_, ?_⟩
+  · intro strict k; cases strict <;> simp [kwStrictTest]
+  · intro strict k recv
+    cases strict
+    · simp [posStrictTest]
+    · cases recv with
+      | none => simp [posStrictTest]
+      | some r =>
+        by_cases h : k = r
+        · subst h; simp [posStrictTest]
+        · have hb : (some k == some r) = false := by simpa using h
+          have hb' : (some r == some k) = false := by simpa using fun h' : r = k => h h'.symm
+          simp [posStrictTest, bne, hb, hb', h]
 
 @[simp] theorem kwStrictTest_eq (strict : Bool) (k : Name) : kwStrictTest strict k = strict := strict_exempts_only_the_receiver.1 strict k
-@[simp] theorem posStrictTest_eq (strict : Bool) (k : Name) : posStrictTest strict k = (strict && k != selfName) :=
-  strict_exempts_only_the_receiver.2 strict k
+@[simp] theorem posStrictTest_eq (strict : Bool) (k : Name) (recv : Option Name) :
+    posStrictTest strict k recv = (strict && some k != recv) :=
+  strict_exempts_only_the_receiver.2 strict k recv
+
+/-- **C12 (the receiver, the generated rule).** The wrappers recognise the receiver of a method *by the signature*: `receiver_name`
+    is `'self'` iff the **first** parameter of the signature is called `self` — whether or not some other parameter carries that
+    name — and `None` otherwise; and `receiver_name` is the key both wrappers test (`if receiver_name in result`) and pop.  Proved
+    about the generated `receiverName` / `wrapperReceiverKey` / `asyncWrapperReceiverKey`: the former shape of the source (the
+    literal key `'self'`), or a rule that looks for `self` anywhere in the signature, breaks this proof. -/
+theorem receiver_by_signature :
+    receiverBySignature = true ∧
+    (∀ firstIsSelf anyIsSelf, receiverName firstIsSelf anyIsSelf = if firstIsSelf then some selfName else none) ∧
+    (∀ r, wrapperReceiverKey r = r) ∧ (∀ r, asyncWrapperReceiverKey r = r) := by
+  refine ⟨by decide, ?_, ?_, ?_⟩
+  · intro f a; cases f <;> cases a <;> decide
+  · intro r; rfl
+  · intro r; rfl
+
+theorem firstParameter_eq (sig : Sig) : (sigItems sig).head?.map (·.1) = firstParameter sig := by
+  unfold sigItems firstParameter
+  cases hp : sig.pos with
+  | cons x r => simp
+  | nil =>
+    cases hv : sig.varArgs with
+    | true => simp
+    | false => cases hk : sig.kwOnly <;> simp
+
+/-- the model's `receiver_name` is the specification's receiver: the first parameter of the signature, if it is called `self` -/
+theorem receiver_eq_spec (sig : Sig) : sig.receiver = specReceiver sig := by
+  unfold Sig.receiver specReceiver
+  rw [receiver_by_signature.2.1, firstParameter_eq]
+  by_cases h : firstParameter sig = some selfName <;> simp [h]
+
+theorem receiverKey_eq (sig : Sig) (a : Bool) : receiverKey sig a = specReceiver sig := by
+  unfold receiverKey
+  cases a <;> simp [receiver_by_signature.2.2.1, receiver_by_signature.2.2.2, receiver_eq_spec]
+
+theorem specReceiver_cases (sig : Sig) : specReceiver sig = none ∨ specReceiver sig = some selfName := by
+  unfold specReceiver; split <;> simp
 
 theorem findP_name : ∀ (ps : List VParam) (k : Name) (p : VParam), findP ps k = some p → p.name = k := by
   intro ps
@@ -138,7 +187,7 @@ def wrapperSeq (c : Cfg) (args : List PV) (kw : List (Name × PV)) : Except VExc
   else
     (loopKw c.ps c.strict kw [] []).bind fun st1 =>
     (bindPartial c.sig args).bind fun b =>
-    (loopPos c.ps c.strict b.named st1.1 st1.2 []).bind fun st2 =>
+    (loopPos c.ps c.strict c.sig.receiver b.named st1.1 st1.2 []).bind fun st2 =>
     (if b.extras.isEmpty then .ok (st2.1, st2.2.1) else loopZip (zipPairs c.ps args st2.2.1 st2.2.2) st2.1 st2.2.1).bind fun st3 =>
     (loopUnused c.sig (c.ps.filter (fun p => !st3.2.contains p.name)) st3.1).bind (flaskCheck c.ps c.strict c.req)
 
@@ -156,7 +205,7 @@ theorem wrapperContent_eq_seq (c : Cfg) (args : List PV) (kw : List (Name × PV)
       | error e => rfl
       | ok b =>
         simp only [Except.bind]
-        cases loopPos c.ps c.strict b.named st1.1 st1.2 [] with
+        cases loopPos c.ps c.strict c.sig.receiver b.named st1.1 st1.2 [] with
         | error e => rfl
         | ok st2 =>
           obtain ⟨r2, u2, ua⟩ := st2
@@ -199,18 +248,19 @@ theorem gateOut_kw (c : Cfg) : ∀ (kw : List (Name × PV)) (rest : List Item) (
 
 theorem gateOut_pos (c : Cfg) : ∀ (bd : List (Name × PV)) (rest : List Item) (res : Assoc) (used : List Name) (ua : List PV),
     gateOut c (bd.map (fun kv => Item.pos kv.1 kv.2) ++ rest) res
-      = (loopPos c.ps c.strict bd res used ua).bind (fun st => gateOut c rest st.1) := by
+      = (loopPos c.ps c.strict c.sig.receiver bd res used ua).bind (fun st => gateOut c rest st.1) := by
   intro bd
   induction bd with
   | nil => intro rest res used ua; simp [loopPos, Except.bind, posStrictTest_eq]
   | cons kv tl ih =>
     intro rest res used ua
     obtain ⟨k, v⟩ := kv
-    simp only [List.map_cons, List.cons_append, gateOut, itemOut, loopPos, posStrictTest_eq]
+    simp only [List.map_cons, List.cons_append, gateOut, itemOut, loopPos, posStrictTest_eq, receiver_eq_spec]
+    simp only [← receiver_eq_spec]
     cases hf : findP c.ps k with
     | none =>
       simp only
-      by_cases hs : (c.strict && k != selfName) = true
+      by_cases hs : (c.strict && some k != c.sig.receiver) = true
       · simp [hs, Except.bind]
       · simpa [hs] using ih rest (res.set k v) used ua
     | some p =>
@@ -300,9 +350,9 @@ theorem loopKw_used (ps : List VParam) (strict : Bool) :
             exact Or.inl (Or.inr this.symm)
           · exact Or.inr ⟨h1, h2⟩
 
-theorem loopPos_used (ps : List VParam) (strict : Bool) :
+theorem loopPos_used (ps : List VParam) (strict : Bool) (recv : Option Name) :
     ∀ (bd : List (Name × PV)) (res res' : Assoc) (used used' : List Name) (ua ua' : List PV),
-      loopPos ps strict bd res used ua = .ok (res', used', ua') →
+      loopPos ps strict recv bd res used ua = .ok (res', used', ua') →
       ∀ n, n ∈ used' ↔ n ∈ used ∨ (bd.any (fun kv => kv.1 == n) = true ∧ (findP ps n).isSome = true) := by
   intro bd
   induction bd with
@@ -318,7 +368,7 @@ theorem loopPos_used (ps : List VParam) (strict : Bool) :
     cases hf : findP ps k with
     | none =>
       simp only [hf] at h
-      by_cases hs : (strict && k != selfName) = true
+      by_cases hs : (strict && some k != recv) = true
       · simp [hs] at h
       · simp only [hs, Bool.false_eq_true, ↓reduceIte] at h
         rw [ih _ _ _ _ _ _ h n]
@@ -390,7 +440,7 @@ theorem gate_spec (c : Cfg) (args : List PV) (kw : List (Name × PV)) (hva : c.s
       · have hlen' : ¬ args.length > c.sig.pos.length := by omega
         simp only [hlen, hlen', ↓reduceIte, List.nil_append, List.isEmpty_nil]
         rw [gateOut_pos c _ _ r1 u1 []]
-        cases h2 : loopPos c.ps c.strict (c.sig.posNames.zip args) r1 u1 [] with
+        cases h2 : loopPos c.ps c.strict c.sig.receiver (c.sig.posNames.zip args) r1 u1 [] with
         | error e => simp [Except.bind]
         | ok st2 =>
           obtain ⟨r2, u2, ua⟩ := st2
@@ -401,7 +451,7 @@ theorem gate_spec (c : Cfg) (args : List PV) (kw : List (Name × PV)) (hva : c.s
             intro p hp
             have hsome := findP_isSome_of_mem c.ps p hp
             have hu1 := loopKw_used c.ps c.strict kw [] r1 [] u1 h1 p.name
-            have hu2 := loopPos_used c.ps c.strict _ r1 r2 u1 u2 [] ua h2 p.name
+            have hu2 := loopPos_used c.ps c.strict _ _ r1 r2 u1 u2 [] ua h2 p.name
             have : u2.contains p.name = supplied c.sig args kw p.name := by
               rw [Bool.eq_iff_iff]
               simp only [List.contains_iff_mem, hu2, hu1, supplied, zip_any_key, hsome, and_true, List.not_mem_nil, false_or,
@@ -562,13 +612,13 @@ theorem loopKw_get (ps : List VParam) (strict : Bool) :
             simp only [hkn', Bool.false_eq_true, ↓reduceIte] at hl
             exact h4 n v1 hl hq
 
-theorem loopPos_get (ps : List VParam) (strict : Bool) :
+theorem loopPos_get (ps : List VParam) (strict : Bool) (recv : Option Name) :
     ∀ (bd : List (Name × PV)) (res res' : Assoc) (used used' : List Name) (ua ua' : List PV), keysNodup bd →
-      loopPos ps strict bd res used ua = .ok (res', used', ua') →
+      loopPos ps strict recv bd res used ua = .ok (res', used', ua') →
       (∀ n, res'.get? n = match lookupKV bd n with | some v => written ps n v | none => res.get? n) ∧
       (∀ n, n ∈ used' ↔ n ∈ used ∨ ((lookupKV bd n).isSome ∧ (findP ps n).isSome)) ∧
       (∀ n v p, lookupKV bd n = some v → findP ps n = some p → ∃ w, p.validate v = .ok w) ∧
-      (∀ n v, lookupKV bd n = some v → findP ps n = none → (strict && n != selfName) = false) := by
+      (∀ n v, lookupKV bd n = some v → findP ps n = none → (strict && some n != recv) = false) := by
   intro bd
   induction bd with
   | nil =>
@@ -584,7 +634,7 @@ theorem loopPos_get (ps : List VParam) (strict : Bool) :
     cases hf : findP ps k with
     | none =>
       simp only [hf] at h
-      by_cases hs : (strict && k != selfName) = true
+      by_cases hs : (strict && some k != recv) = true
       · simp [hs] at h
       · simp only [hs, Bool.false_eq_true, ↓reduceIte] at h
         obtain ⟨h1, h2, h3, h4⟩ := ih _ _ _ _ _ _ hnd' h
@@ -823,6 +873,12 @@ theorem lookup_find (l : List (Name × PV)) (n : Name) : (l.find? (·.1 == n)).m
     · have h' : (k == n) = false := by simpa using h
       simp [h', ih]
 
+theorem passedPositionally_eq (sig : Sig) (args : List PV) (n : Name) :
+    passedPositionally sig args n = (lookupKV (sig.posNames.zip args) n).isSome := by
+  unfold passedPositionally
+  rw [← lookup_find (sig.posNames.zip args) n]
+  cases List.find? (fun x => x.1 == n) (sig.posNames.zip args) <;> rfl
+
 /-- the caller's input for a name, in terms of the two lookup tables -/
 theorem callerInput_eq (sig : Sig) (args : List PV) (kw : List (Name × PV)) (n : Name) :
     callerInput sig args kw n =
@@ -876,7 +932,7 @@ def byNameAt (c : Cfg) (args : List PV) (kw : List (Name × PV)) (n : Name) : Ex
     | none => absentRule c.sig p
   | none =>
     match inp with
-    | some v => if c.strict && n != selfName then .error .tooMany else .ok (some v)
+    | some v => if strictRefuses c args n then .error .tooMany else .ok (some v)
     | none => .ok none
 
 theorem flaskCheck_ok (ps : List VParam) (strict : Bool) (req : Req) (res res' : Assoc)
@@ -932,7 +988,7 @@ theorem res_get (c : Cfg) (args : List PV) (kw : List (Name × PV)) (res : Assoc
           · cases hb
         obtain ⟨hbn, hbe⟩ := hbound
         rw [hbn, hbe] at h
-        cases h2 : loopPos c.ps c.strict (c.sig.posNames.zip args) r1 u1 [] with
+        cases h2 : loopPos c.ps c.strict c.sig.receiver (c.sig.posNames.zip args) r1 u1 [] with
         | error e => simp [h2] at h
         | ok st2 =>
           obtain ⟨r2, u2, ua⟩ := st2
@@ -943,7 +999,7 @@ theorem res_get (c : Cfg) (args : List PV) (kw : List (Name × PV)) (res : Assoc
             simp only [h3] at h
             have := flaskCheck_ok _ _ _ _ _ h; subst this
             obtain ⟨k1, ku1, kv1, ks1⟩ := loopKw_get c.ps c.strict kw [] r1 [] u1 hkw h1
-            obtain ⟨p1, pu1, pv1, pss1⟩ := loopPos_get c.ps c.strict _ r1 r2 u1 u2 [] ua hbd h2
+            obtain ⟨p1, pu1, pv1, pss1⟩ := loopPos_get c.ps c.strict _ _ r1 r2 u1 u2 [] ua hbd h2
             obtain ⟨g1, g2⟩ := loopUnused_get c.sig _ r2 res (namesNodup_filter (fun n => !u2.contains n) c.ps hps) h3
             intro n
             have hrs := g1 n
@@ -995,7 +1051,16 @@ theorem res_get (c : Cfg) (args : List PV) (kw : List (Name × PV)) (res : Assoc
               | some v =>
                 simp only
                 have := pss1 n v hlb hfp
-                simp [this, written, hfp]
+                simp only [receiver_eq_spec] at this
+                have hr : strictRefuses c args n = false := by
+                  simp only [strictRefuses, passedPositionally_eq, hlb, Option.isSome_some, Bool.and_true]
+                  cases hst : c.strict with
+                  | false => rfl
+                  | true =>
+                    rw [hst] at this
+                    simp only [Bool.true_and, bne_eq_false_iff_eq] at this
+                    simp [this]
+                simp [hr, written, hfp]
               | none =>
                 simp only
                 rw [k1 n]
@@ -1003,7 +1068,7 @@ theorem res_get (c : Cfg) (args : List PV) (kw : List (Name × PV)) (res : Assoc
                 | some v =>
                   simp only
                   have := ks1 n v hlk hfp
-                  simp [this, written, hfp]
+                  simp [strictRefuses, this, written, hfp]
                 | none => simp [Assoc.get?]
 
 
@@ -1063,10 +1128,10 @@ def kwFails (ps : List VParam) (strict : Bool) (kv : Name × PV) : Prop :=
   | none => strict = true
 
 /-- a positional item that stops the second loop -/
-def posFails (ps : List VParam) (strict : Bool) (kv : Name × PV) : Prop :=
+def posFails (ps : List VParam) (strict : Bool) (recv : Option Name) (kv : Name × PV) : Prop :=
   match findP ps kv.1 with
   | some p => ∃ e, p.validate kv.2 = .error e
-  | none => (strict && kv.1 != selfName) = true
+  | none => (strict && some kv.1 != recv) = true
 
 theorem loopKw_blocks (ps : List VParam) (strict : Bool) :
     ∀ (kw : List (Name × PV)) (res : Assoc) (used : List Name),
@@ -1098,9 +1163,9 @@ theorem loopKw_blocks (ps : List VParam) (strict : Bool) :
         · simp only [kwFails, hf, hv] at hfail; obtain ⟨e, he⟩ := hfail; cases he
         · exact ih _ _ ⟨kv, hkv, hfail⟩
 
-theorem loopPos_blocks (ps : List VParam) (strict : Bool) :
+theorem loopPos_blocks (ps : List VParam) (strict : Bool) (recv : Option Name) :
     ∀ (bd : List (Name × PV)) (res : Assoc) (used : List Name) (ua : List PV),
-      (∃ kv ∈ bd, posFails ps strict kv) → ∃ e, loopPos ps strict bd res used ua = .error e := by
+      (∃ kv ∈ bd, posFails ps strict recv kv) → ∃ e, loopPos ps strict recv bd res used ua = .error e := by
   intro bd
   induction bd with
   | nil => intro res used ua ⟨kv, hkv, _⟩; simp at hkv
@@ -1112,7 +1177,7 @@ theorem loopPos_blocks (ps : List VParam) (strict : Bool) :
     cases hf : findP ps k with
     | none =>
       simp only
-      by_cases hs : (strict && k != selfName) = true
+      by_cases hs : (strict && some k != recv) = true
       · simp [hs]
       · rw [if_neg hs]
         rcases hkv with rfl | hkv
@@ -1205,7 +1270,7 @@ theorem reject_blocks_body_kw (c : Cfg) (a : Bool) (m : Mode) (args : List PV) (
 
 /-- **C12 (gate, positional loop).** The same for a positional argument bound to a named parameter. -/
 theorem reject_blocks_body_pos (c : Cfg) (a : Bool) (m : Mode) (args : List PV) (kw : List (Name × PV))
-    (hi : c.ignoreInput = false) (h : ∃ kv ∈ c.sig.posNames.zip args, posFails c.ps c.strict kv) :
+    (hi : c.ignoreInput = false) (h : ∃ kv ∈ c.sig.posNames.zip args, posFails c.ps c.strict c.sig.receiver kv) :
     ∃ e, runValidate c a m args kw = .error e := by
   suffices hs : ∃ e, wrapperSeq c args kw = .error e by
     obtain ⟨e, he⟩ := hs
@@ -1227,7 +1292,7 @@ theorem reject_blocks_body_pos (c : Cfg) (a : Bool) (m : Mode) (args : List PV) 
             · simp only [Except.ok.injEq] at hb; subst hb; exact fun kv h => h
             · simp only [Except.ok.injEq] at hb; subst hb; exact fun kv h => List.mem_append_left _ h
           · cases hb
-      obtain ⟨e, he⟩ := loopPos_blocks c.ps c.strict b.named st1.1 st1.2 []
+      obtain ⟨e, he⟩ := loopPos_blocks c.ps c.strict c.sig.receiver b.named st1.1 st1.2 []
         (by obtain ⟨kv, hkv, hf⟩ := h; exact ⟨kv, hbn kv hkv, hf⟩)
       exact ⟨e, by simp [he]⟩
 
@@ -1236,7 +1301,7 @@ theorem reject_blocks_body_pos (c : Cfg) (a : Bool) (m : Mode) (args : List PV) 
 theorem reject_blocks_body_zip (c : Cfg) (a : Bool) (m : Mode) (args : List PV) (kw : List (Name × PV))
     (hi : c.ignoreInput = false) (r1 : Assoc) (u1 : List Name) (b : Bound) (r2 : Assoc) (u2 : List Name) (ua : List PV)
     (h1 : loopKw c.ps c.strict kw [] [] = .ok (r1, u1)) (hb : bindPartial c.sig args = .ok b)
-    (h2 : loopPos c.ps c.strict b.named r1 u1 [] = .ok (r2, u2, ua)) (hex : b.extras.isEmpty = false)
+    (h2 : loopPos c.ps c.strict c.sig.receiver b.named r1 u1 [] = .ok (r2, u2, ua)) (hex : b.extras.isEmpty = false)
     (h : ∃ ap ∈ zipPairs c.ps args u2 ua, ∃ e, ap.2.validate ap.1 = .error e) :
     ∃ e, runValidate c a m args kw = .error e := by
   obtain ⟨e, he⟩ := loopZip_blocks (zipPairs c.ps args u2 ua) r2 u2 h
@@ -1382,18 +1447,31 @@ theorem strict_surplus_kw (c : Cfg) (a : Bool) (m : Mode) (args : List PV) (kw :
     ∃ e, runValidate c a m args kw = .error e :=
   reject_blocks_body_kw c a m args kw hi ⟨(k, v), hmem, by simp [kwFails, hnone, hs]⟩
 
-/-- … and so does a positional argument bound to a named parameter (other than `self`) without declared Parameter. -/
+/-- who is *not* the receiver: every name other than `self`, and every name at all when the first parameter of the signature is
+    not called `self` (a plain function; `self` in a later position is an ordinary parameter) -/
+theorem not_receiver (sig : Sig) (k : Name) (h : k ≠ selfName ∨ firstParameter sig ≠ some selfName) :
+    some k ≠ specReceiver sig := by
+  unfold specReceiver
+  rcases h with h | h
+  · split
+    · intro hh; exact h (Option.some.inj hh)
+    · intro hh; cases hh
+  · rw [if_neg h]; intro hh; cases hh
+
+/-- … and so does a positional argument bound to a named parameter without declared Parameter — unless it is the receiver
+    (the first parameter of the signature, called `self`). -/
 theorem strict_surplus_pos (c : Cfg) (a : Bool) (m : Mode) (args : List PV) (kw : List (Name × PV)) (k : Name) (v : PV)
     (hi : c.ignoreInput = false) (hs : c.strict = true) (hmem : (k, v) ∈ c.sig.posNames.zip args) (hnone : findP c.ps k = none)
-    (hself : k ≠ selfName) :
+    (hrecv : some k ≠ specReceiver c.sig) :
     ∃ e, runValidate c a m args kw = .error e :=
-  reject_blocks_body_pos c a m args kw hi ⟨(k, v), hmem, by simp [posFails, hnone, hs, hself]⟩
+  reject_blocks_body_pos c a m args kw hi ⟨(k, v), hmem, by simp [posFails, hnone, hs, receiver_eq_spec, hrecv]⟩
 
 /-- **C12 (strict, which exception).** It is `TooManyArguments` when nothing earlier in processing order failed. -/
 theorem strict_surplus (c : Cfg) (a : Bool) (m : Mode) (args : List PV) (kw : List (Name × PV))
     (hva : c.sig.varArgs = false) (hs : c.strict = true) (pre post : List Item) (k : Name) (v : PV)
     (hnone : findP c.ps k = none)
-    (hsplit : gateItems c args kw = pre ++ Item.kw k v :: post ∨ (k ≠ selfName ∧ gateItems c args kw = pre ++ Item.pos k v :: post))
+    (hsplit : gateItems c args kw = pre ++ Item.kw k v :: post ∨
+      (some k ≠ specReceiver c.sig ∧ gateItems c args kw = pre ++ Item.pos k v :: post))
     (hpre : ∀ i ∈ pre, ∃ r, itemOut c i = .ok r) :
     runValidate c a m args kw = .error .tooMany := by
   rcases hsplit with h | ⟨hk, h⟩
@@ -1673,7 +1751,7 @@ theorem loopKw_inv (c : Cfg) (args : List PV) (kw : List (Name × PV)) :
 theorem loopPos_inv (c : Cfg) (args : List PV) (kw : List (Name × PV)) :
     ∀ (bd : List (Name × PV)) (res res' : Assoc) (used used' : List Name) (ua ua' : List PV),
       (∀ kv ∈ bd, kv ∈ c.sig.posNames.zip args) → (∀ e ∈ res, EntryOk c args kw e) →
-      loopPos c.ps c.strict bd res used ua = .ok (res', used', ua') → ∀ e ∈ res', EntryOk c args kw e := by
+      loopPos c.ps c.strict c.sig.receiver bd res used ua = .ok (res', used', ua') → ∀ e ∈ res', EntryOk c args kw e := by
   intro bd
   induction bd with
   | nil =>
@@ -1836,7 +1914,7 @@ theorem res_only_chain_outputs (c : Cfg) (args : List PV) (kw : List (Name × PV
         rw [hb] at h
         simp only at h
         have hbn : b.named = c.sig.posNames.zip args := bindPartial_named c.sig args b hb
-        cases h2 : loopPos c.ps c.strict b.named r1 u1 [] with
+        cases h2 : loopPos c.ps c.strict c.sig.receiver b.named r1 u1 [] with
         | error e => rw [h2] at h; cases h
         | ok st2 =>
           obtain ⟨r2, u2, ua⟩ := st2
@@ -1866,15 +1944,15 @@ theorem res_only_chain_outputs (c : Cfg) (args : List PV) (kw : List (Name × PV
               exact loopUnused_inv c args kw _ _ _ (hfilter u3) inv3 h3
 
 
-theorem exec_sub (keep : Bool → Bool → Bool) : ∀ (prog : List GStmt) (m : Mode) (res : Assoc) (f : CallForm) (r : Assoc),
-    exec keep prog m res = some (f, r) → ∀ e ∈ r, e ∈ res := by
+theorem exec_sub (keep : Bool → Bool → Bool) (rk : Option Name) : ∀ (prog : List GStmt) (m : Mode) (res : Assoc) (f : CallForm) (r : Assoc),
+    exec keep rk prog m res = some (f, r) → ∀ e ∈ r, e ∈ res := by
   intro prog
   induction prog with
   | nil => intro m res f r h; simp [exec] at h
   | cons s rest ih =>
     intro m res f r h
     simp only [exec] at h
-    by_cases hg : guardHolds s m res = true
+    by_cases hg : guardHolds s m rk res = true
     · rw [if_pos hg] at h
       cases hact : s.act with
       | filter =>
@@ -1994,20 +2072,24 @@ theorem lookupAll_mem (res : Assoc) : ∀ (ns : List Name) (vs : List PV), looku
         · exact ⟨n, get?_mem _ _ _ hg⟩
         · exact ih ws hl v hv
 
-theorem callWith_values (sig : Sig) (f : CallForm) (r : Assoc) (b : Binding) (h : callWith sig f r = .ok b) :
+theorem callWith_values (sig : Sig) (rk : Option Name) (f : CallForm) (r : Assoc) (b : Binding) (h : callWith sig rk f r = .ok b) :
     ∀ v, (v ∈ b.named.map (·.2) ∨ v ∈ b.extras) → (∃ n, (n, v) ∈ r) ∨ (∃ s ∈ sig.named, s.dflt = some v) := by
   intro v hv
   cases f with
   | selfKw =>
     simp only [callWith] at h
-    cases hg : r.get? selfName with
-    | none => rw [hg] at h; cases h
-    | some sv =>
-      rw [hg] at h
-      rcases bindCall_values _ _ _ _ h v hv with h1 | ⟨n, h2⟩ | h3
-      · simp only [List.mem_singleton] at h1; subst h1; exact Or.inl ⟨_, get?_mem _ _ _ hg⟩
-      · exact Or.inl ⟨n, (List.mem_filter.mp h2).1⟩
-      · exact Or.inr h3
+    cases rk with
+    | none => cases h
+    | some key =>
+      simp only at h
+      cases hg : r.get? key with
+      | none => rw [hg] at h; cases h
+      | some sv =>
+        rw [hg] at h
+        rcases bindCall_values _ _ _ _ h v hv with h1 | ⟨n, h2⟩ | h3
+        · simp only [List.mem_singleton] at h1; subst h1; exact Or.inl ⟨_, get?_mem _ _ _ hg⟩
+        · exact Or.inl ⟨n, (List.mem_filter.mp h2).1⟩
+        · exact Or.inr h3
   | split =>
     simp only [callWith, bind, Except.bind] at h
     cases hs : splitBySig sig r with
@@ -2087,7 +2169,8 @@ theorem body_sees_only_chain_outputs (c : Cfg) (a : Bool) (m : Mode) (args : Lis
     simp only [dispatch] at h
     have hinv := res_only_chain_outputs c args kw res hw
     intro v hv
-    cases hex : (if a = true then exec asyncWrapperKeep asyncWrapperProg m res else exec wrapperKeep wrapperProg m res) with
+    cases hex : (if a = true then exec asyncWrapperKeep (receiverKey c.sig a) asyncWrapperProg m res
+                 else exec wrapperKeep (receiverKey c.sig a) wrapperProg m res) with
     | none => rw [hex] at h; cases h
     | some fr =>
       obtain ⟨f, r⟩ := fr
@@ -2095,9 +2178,9 @@ theorem body_sees_only_chain_outputs (c : Cfg) (a : Bool) (m : Mode) (args : Lis
       simp only at h
       have hsub : ∀ e ∈ r, e ∈ res := by
         split at hex
-        · exact exec_sub _ _ _ _ _ _ hex
-        · exact exec_sub _ _ _ _ _ _ hex
-      rcases callWith_values c.sig f r b h v hv with ⟨n, hn⟩ | hd
+        · exact exec_sub _ _ _ _ _ _ _ hex
+        · exact exec_sub _ _ _ _ _ _ _ hex
+      rcases callWith_values c.sig _ f r b h v hv with ⟨n, hn⟩ | hd
       · exact Or.inl ⟨n, hinv _ (hsub _ hn)⟩
       · exact Or.inr hd
 
@@ -2215,9 +2298,9 @@ theorem loopKw_pres (ps : List VParam) (strict : Bool) : ∀ (kw : List (Name ×
       | error e => simp [hv, bind, Except.bind] at h
       | ok w => simp only [hv, bind, Except.bind] at h; exact ih _ _ _ _ (hP _ _ _ h0) h
 
-theorem loopPos_pres (ps : List VParam) (strict : Bool) :
+theorem loopPos_pres (ps : List VParam) (strict : Bool) (recv : Option Name) :
     ∀ (bd : List (Name × PV)) (res res' : Assoc) (used used' : List Name) (ua ua' : List PV),
-    P res → loopPos ps strict bd res used ua = .ok (res', used', ua') → P res' := by
+    P res → loopPos ps strict recv bd res used ua = .ok (res', used', ua') → P res' := by
   intro bd
   induction bd with
   | nil =>
@@ -2302,7 +2385,7 @@ theorem wrapperContent_pres (c : Cfg) (args : List PV) (kw : List (Name × PV)) 
       | ok b =>
         rw [hb] at h
         simp only at h
-        cases h2 : loopPos c.ps c.strict b.named r1 u1 [] with
+        cases h2 : loopPos c.ps c.strict c.sig.receiver b.named r1 u1 [] with
         | error e => rw [h2] at h; cases h
         | ok st2 =>
           obtain ⟨r2, u2, ua⟩ := st2
@@ -2314,7 +2397,7 @@ theorem wrapperContent_pres (c : Cfg) (args : List PV) (kw : List (Name × PV)) 
             obtain ⟨r3, u3⟩ := st3
             rw [hz] at h
             simp only at h
-            have p2 := loopPos_pres P hP _ _ _ _ _ _ _ _ _ (loopKw_pres P hP _ _ _ _ _ _ _ h0 h1) h2
+            have p2 := loopPos_pres P hP _ _ _ _ _ _ _ _ _ _ (loopKw_pres P hP _ _ _ _ _ _ _ h0 h1) h2
             have p3 : P r3 := by
               split at hz
               · simp only [Except.ok.injEq, Prod.mk.injEq] at hz; obtain ⟨rfl, _⟩ := hz; exact p2
@@ -2368,7 +2451,7 @@ theorem bindCall_eq_dict (sig : Sig) (pos : List PV) (kw d : Assoc)
   have hdrop : pos.drop sig.pos.length = [] := List.drop_eq_nil_of_le hlen
   rw [hdrop, mapM_congr _ (bindOne d) sig.named (fun s hs => bindOne_congr _ _ s (hget s hs))]
 
-theorem callWith_kw_eq (sig : Sig) (d : Assoc) : callWith sig .kw d = bindDict sig d := by
+theorem callWith_kw_eq (sig : Sig) (rk : Option Name) (d : Assoc) : callWith sig rk .kw d = bindDict sig d := by
   simp only [callWith]
   apply bindCall_eq_dict
   · simp
@@ -2406,7 +2489,7 @@ theorem posName_is_param (sig : Sig) (n : Name) (h : n ∈ sig.posNames) : sig.n
 /-- `func(result.pop('self'), **result)` binds like `func(**result)` when `self` is the first positional parameter -/
 theorem callWith_selfKw_eq (sig : Sig) (d : Assoc) (sv : PV) (rest : List Name)
     (hpos : sig.posNames = selfName :: rest) (hs : d.get? selfName = some sv) :
-    callWith sig .selfKw d = bindDict sig d := by
+    callWith sig (some selfName) .selfKw d = bindDict sig d := by
   simp only [callWith, hs]
   have hlen : 1 ≤ sig.pos.length := by
     have : sig.posNames.length = sig.pos.length := by simp [Sig.posNames]
@@ -2516,7 +2599,8 @@ theorem lookupAll_ok (res : Assoc) : ∀ (ns : List Name), (∀ n ∈ ns, res.ha
 
 /-- `positional, by_name = _split_by_signature(result); func(*positional, **by_name)` binds like `func(**result)` for a
     function without `*args` (generated prefix rule and return shape) -/
-theorem callWith_split_eq (sig : Sig) (d : Assoc) (hva : sig.varArgs = false) : callWith sig .split d = bindDict sig d := by
+theorem callWith_split_eq (sig : Sig) (rk : Option Name) (d : Assoc) (hva : sig.varArgs = false) :
+    callWith sig rk .split d = bindDict sig d := by
   simp only [callWith, splitBySig, hva, Bool.and_false, Bool.false_eq_true, ↓reduceIte, splitReturn]
   rw [prefixNames_eq sig d hva]
   have hmem : ∀ n ∈ sig.posNames.takeWhile (fun n => d.has n), d.has n = true :=
@@ -2562,25 +2646,28 @@ theorem callWith_split_eq (sig : Sig) (d : Assoc) (hva : sig.varArgs = false) : 
 /-- the dict without the entries whose value `is None` -/
 def withoutNone (res : Assoc) : Assoc := res.filter (fun kv => !kv.2.isNone)
 
-/-- what the generated programs do, sync and async alike: ARGS → `self` first if present, else split by signature;
-    KWARGS_WITH_NONE → `self` first if present, else by keyword; KWARGS_WITHOUT_NONE → the same after dropping the
-    entries whose value `is None` -/
+/-- what the generated programs do, sync and async alike — `rk` is the receiver's name (`receiver_name`: `self` when the first
+    parameter of the signature is called `self`, else `None`, which is never a key): ARGS → the receiver first if the dict has
+    it, else split by signature; KWARGS_WITH_NONE → the receiver first if present, else by keyword; KWARGS_WITHOUT_NONE → the
+    same after dropping the entries whose value `is None` -/
 theorem dispatch_unfold (sig : Sig) (a : Bool) (m : Mode) (res : Assoc) :
     dispatch sig a m res =
       match m with
-      | .args => if res.has selfName then callWith sig .selfKw res else callWith sig .split res
-      | .kwWithNone => if res.has selfName then callWith sig .selfKw res else callWith sig .kw res
+      | .args => if res.hasKey (specReceiver sig) then callWith sig (specReceiver sig) .selfKw res
+                 else callWith sig (specReceiver sig) .split res
+      | .kwWithNone => if res.hasKey (specReceiver sig) then callWith sig (specReceiver sig) .selfKw res
+                       else callWith sig (specReceiver sig) .kw res
       | .kwWithoutNone =>
-        if (withoutNone res).has selfName then callWith sig .selfKw (withoutNone res)
-        else callWith sig .kw (withoutNone res) := by
+        if (withoutNone res).hasKey (specReceiver sig) then callWith sig (specReceiver sig) .selfKw (withoutNone res)
+        else callWith sig (specReceiver sig) .kw (withoutNone res) := by
   cases a <;> cases m
   all_goals
-    simp only [dispatch, withoutNone, exec, wrapperProg, asyncWrapperProg, guardHolds, wrapperKeep, asyncWrapperKeep, Bool.false_eq_true,
-      ↓reduceIte, beq_self_eq_true, Bool.true_and, Bool.not_true, Bool.false_or, Bool.not_false, Bool.true_or, Bool.and_true,
-      Bool.and_self]
+    simp only [dispatch, receiverKey_eq, withoutNone, exec, wrapperProg, asyncWrapperProg, guardHolds, wrapperKeep, asyncWrapperKeep,
+      Bool.false_eq_true, ↓reduceIte, beq_self_eq_true, Bool.true_and, Bool.not_true, Bool.false_or, Bool.not_false, Bool.true_or,
+      Bool.and_true, Bool.and_self]
   all_goals first
-    | (by_cases h : res.has selfName = true <;> simp [h] <;> rfl)
-    | (by_cases h : (withoutNone res).has selfName = true <;> simp [withoutNone] at h ⊢ <;> simp [h] <;> rfl)
+    | (by_cases h : res.hasKey (specReceiver sig) = true <;> simp [h] <;> rfl)
+    | (by_cases h : (withoutNone res).hasKey (specReceiver sig) = true <;> simp [withoutNone] at h ⊢ <;> simp [h] <;> rfl)
 
 theorem has_withoutNone (res : Assoc) (n : Name) (hnd : keysNodup res) (h : (withoutNone res).has n = true) :
     ∃ v, res.get? n = some v := by
@@ -2590,106 +2677,106 @@ theorem has_withoutNone (res : Assoc) (n : Name) (hnd : keysNodup res) (h : (wit
   | none => rw [hg] at h; simp at h
   | some v => exact ⟨v, rfl⟩
 
-/-- for a function without `*args` whose `self` (if the dict has one) is its first positional parameter, every mode
-    hands the dict over *by name*: the hand-over is `func(**d)` with `d` the dict (without its None entries in
-    KWARGS_WITHOUT_NONE) -/
+/-- a dict has the receiver's key only if the function has a receiver — the first parameter of its signature is called `self` -/
+theorem hasKey_receiver (sig : Sig) (d : Assoc) (h : d.hasKey (specReceiver sig) = true) :
+    specReceiver sig = some selfName ∧ firstParameter sig = some selfName ∧ ∃ sv, d.get? selfName = some sv := by
+  unfold specReceiver at h ⊢
+  by_cases hf : firstParameter sig = some selfName
+  · rw [if_pos hf] at h ⊢
+    simp only [Assoc.hasKey, Assoc.has, Option.isSome_iff_exists] at h
+    exact ⟨rfl, hf, h⟩
+  · rw [if_neg hf] at h; simp [Assoc.hasKey] at h
+
+/-- **the hand-over is by name.**  One step of the dispatch — "the receiver first if the dict has it, else `func(*positional,
+    **by_name)` / `func(**result)`" — on a function without `*args`: whenever Python accepts the call, it binds exactly like
+    `func(**d)`.  No hypothesis about `self`: the receiver is popped only when the *first parameter of the signature* is called
+    `self`; if that parameter is positional, popping it and passing it first is binding it by name; if it is keyword-only
+    (`def f(*, self)`), Python refuses the positional value and the body does not run. -/
+theorem handOver_ok_bindDict (sig : Sig) (f : CallForm) (d : Assoc) (b : Binding) (hva : sig.varArgs = false)
+    (hf : f = .split ∨ f = .kw)
+    (h : (if d.hasKey (specReceiver sig) then callWith sig (specReceiver sig) .selfKw d else callWith sig (specReceiver sig) f d)
+          = .ok b) :
+    bindDict sig d = .ok b := by
+  by_cases hk : d.hasKey (specReceiver sig) = true
+  · rw [if_pos hk] at h
+    obtain ⟨hr, hfirst, sv, hsv⟩ := hasKey_receiver sig d hk
+    rw [hr] at h
+    cases hp : sig.pos with
+    | cons s0 r =>
+      have hs0 : s0.name = selfName := by
+        simp only [firstParameter, hp, Option.some.injEq] at hfirst; exact hfirst
+      have hpos : sig.posNames = selfName :: r.map (·.name) := by simp [Sig.posNames, hp, hs0]
+      rw [callWith_selfKw_eq sig d sv _ hpos hsv] at h
+      exact h
+    | nil =>
+      exfalso
+      simp only [callWith, hsv, bindCall, hp, hva, List.length_singleton, List.length_nil, gt_iff_lt, Nat.lt_add_one, decide_true,
+        Bool.not_false, Bool.and_self, ↓reduceIte] at h
+      cases h
+  · rw [if_neg hk] at h
+    rcases hf with rfl | rfl
+    · rw [callWith_split_eq sig _ d hva] at h; exact h
+    · rw [callWith_kw_eq] at h; exact h
+
+/-- whenever the body runs, the dispatch of either wrapper, in every mode, bound the dict *by name*: `func(**d)` with `d` the
+    dict (without its None entries in KWARGS_WITHOUT_NONE) — every function without `*args`, no hypothesis about `self` -/
+theorem dispatch_ok_bindDict (sig : Sig) (a : Bool) (m : Mode) (res : Assoc) (b : Binding) (hva : sig.varArgs = false)
+    (h : dispatch sig a m res = .ok b) :
+    bindDict sig (if m = .kwWithoutNone then withoutNone res else res) = .ok b := by
+  rw [dispatch_unfold] at h
+  cases m with
+  | args => simpa using handOver_ok_bindDict sig .split res b hva (Or.inl rfl) h
+  | kwWithNone => simpa using handOver_ok_bindDict sig .kw res b hva (Or.inr rfl) h
+  | kwWithoutNone => simpa using handOver_ok_bindDict sig .kw (withoutNone res) b hva (Or.inr rfl) h
+
+
+/-! ## The receiver -/
+
+/-- decidable side condition of the *equation* `dispatch_eq_bindDict` (not of the gate / by-name theorems, which only speak
+    about calls whose body runs): a first parameter called `self` is a positional one — the function is not `def f(*, self, …)` -/
+def receiverIsPositional (sig : Sig) : Bool :=
+  !(sig.pos.isEmpty && sig.kwOnly.head?.map (·.name) == some selfName)
+
+theorem receiver_positional (sig : Sig) (hva : sig.varArgs = false) (h : receiverIsPositional sig = true)
+    (hf : firstParameter sig = some selfName) : ∃ rest, sig.posNames = selfName :: rest := by
+  cases hp : sig.pos with
+  | cons s0 r =>
+    have hs0 : s0.name = selfName := by
+      simp only [firstParameter, hp, Option.some.injEq] at hf; exact hf
+    exact ⟨r.map (·.name), by simp [Sig.posNames, hp, hs0]⟩
+  | nil =>
+    exfalso
+    cases hk : sig.kwOnly with
+    | nil => simp [firstParameter, hp, hva, hk] at hf
+    | cons k0 r =>
+      simp only [firstParameter, hp, hva, hk, Option.some.injEq] at hf
+      simp [receiverIsPositional, hp, hk, hf] at h
+
+/-- for a function without `*args` (whose first parameter, if called `self`, is positional) every mode hands the dict over
+    *by name*: the hand-over is `func(**d)` with `d` the dict (without its None entries in KWARGS_WITHOUT_NONE) — same result,
+    same refusal -/
 theorem dispatch_eq_bindDict (sig : Sig) (a : Bool) (m : Mode) (res : Assoc) (hva : sig.varArgs = false)
-    (hnd : keysNodup res) (hself : ∀ sv, res.get? selfName = some sv → ∃ rest, sig.posNames = selfName :: rest) :
+    (hrecv : receiverIsPositional sig = true) :
     dispatch sig a m res = bindDict sig (if m = .kwWithoutNone then withoutNone res else res) := by
+  have key : ∀ (f : CallForm) (d : Assoc), f = .split ∨ f = .kw →
+      (if d.hasKey (specReceiver sig) then callWith sig (specReceiver sig) .selfKw d else callWith sig (specReceiver sig) f d)
+        = bindDict sig d := by
+    intro f d hf
+    by_cases hk : d.hasKey (specReceiver sig) = true
+    · rw [if_pos hk]
+      obtain ⟨hr, hfirst, sv, hsv⟩ := hasKey_receiver sig d hk
+      obtain ⟨rest, hrest⟩ := receiver_positional sig hva hrecv hfirst
+      rw [hr]
+      exact callWith_selfKw_eq sig d sv rest hrest hsv
+    · rw [if_neg hk]
+      rcases hf with rfl | rfl
+      · exact callWith_split_eq sig _ d hva
+      · exact callWith_kw_eq sig _ d
   rw [dispatch_unfold]
   cases m with
-  | args =>
-    simp only [reduceCtorEq, ↓reduceIte]
-    by_cases h : res.has selfName = true
-    · simp only [h, ↓reduceIte]
-      simp only [Assoc.has, Option.isSome_iff_exists] at h
-      obtain ⟨sv, hsv⟩ := h
-      obtain ⟨rest, hrest⟩ := hself sv hsv
-      exact callWith_selfKw_eq sig res sv rest hrest hsv
-    · simp only [h, Bool.false_eq_true, ↓reduceIte]
-      exact callWith_split_eq sig res hva
-  | kwWithNone =>
-    simp only [reduceCtorEq, ↓reduceIte]
-    by_cases h : res.has selfName = true
-    · simp only [h, ↓reduceIte]
-      simp only [Assoc.has, Option.isSome_iff_exists] at h
-      obtain ⟨sv, hsv⟩ := h
-      obtain ⟨rest, hrest⟩ := hself sv hsv
-      exact callWith_selfKw_eq sig res sv rest hrest hsv
-    · simp only [h, Bool.false_eq_true, ↓reduceIte]
-      exact callWith_kw_eq sig res
-  | kwWithoutNone =>
-    simp only [↓reduceIte]
-    by_cases h : (withoutNone res).has selfName = true
-    · simp only [h, ↓reduceIte]
-      obtain ⟨sv0, hsv0⟩ := has_withoutNone res selfName hnd h
-      obtain ⟨rest, hrest⟩ := hself sv0 hsv0
-      simp only [Assoc.has, Option.isSome_iff_exists] at h
-      obtain ⟨sv, hsv⟩ := h
-      exact callWith_selfKw_eq sig _ sv rest hrest hsv
-    · simp only [h, Bool.false_eq_true, ↓reduceIte]
-      exact callWith_kw_eq sig _
-
-
-/-! ## `self` -/
-
-/-- decidable guard: `self` is what it is in Python — the first positional parameter of a method — or it does not
-    occur at all (no keyword, no Parameter, no parameter of the function is called `self`) -/
-def selfIsReceiver (c : Cfg) (kw : List (Name × PV)) : Bool :=
-  (c.sig.posNames.head? == some selfName) ||
-  (!(kw.any (·.1 == selfName)) && !(c.ps.any (·.name == selfName)) && !(c.sig.posNames.contains selfName))
-
-theorem selfIsReceiver_spec (c : Cfg) (kw : List (Name × PV)) (h : selfIsReceiver c kw = true) :
-    (∃ rest, c.sig.posNames = selfName :: rest) ∨
-    (selfName ∉ kw.map (·.1) ∧ selfName ∉ c.ps.map (·.name) ∧ selfName ∉ c.sig.posNames) := by
-  unfold selfIsReceiver at h
-  simp only [Bool.or_eq_true, Bool.and_eq_true, Bool.not_eq_true'] at h
-  rcases h with h | ⟨⟨h1, h2⟩, h3⟩
-  · left
-    cases hp : c.sig.posNames with
-    | nil => rw [hp] at h; simp at h
-    | cons x r =>
-      rw [hp] at h
-      simp only [List.head?_cons, beq_iff_eq, Option.some.injEq] at h
-      exact ⟨r, by rw [h]⟩
-  · right
-    refine ⟨?_, ?_, ?_⟩
-    · intro hm
-      simp only [List.mem_map] at hm
-      obtain ⟨kv, hkv, hk⟩ := hm
-      have : kw.any (·.1 == selfName) = true := List.any_eq_true.mpr ⟨kv, hkv, by simp [hk]⟩
-      rw [this] at h1; cases h1
-    · intro hm
-      simp only [List.mem_map] at hm
-      obtain ⟨p, hp, hk⟩ := hm
-      have : c.ps.any (·.name == selfName) = true := List.any_eq_true.mpr ⟨p, hp, by simp [hk]⟩
-      rw [this] at h2; cases h2
-    · intro hm
-      have : c.sig.posNames.contains selfName = true := by simpa using hm
-      rw [this] at h3; cases h3
-
-/-- under the guard, a dict produced by `_wrapper_content` (function without `*args`) has the key `self` only if `self`
-    is the function's first positional parameter -/
-theorem self_in_res (c : Cfg) (args : List PV) (kw : List (Name × PV)) (res : Assoc)
-    (hva : c.sig.varArgs = false) (hkw : (kw.map (·.1)).Nodup) (hpos : c.sig.posNames.Nodup) (hps : (c.ps.map (·.name)).Nodup)
-    (hself : selfIsReceiver c kw = true) (hw : wrapperContent c args kw = .ok res) :
-    ∀ sv, res.get? selfName = some sv → ∃ rest, c.sig.posNames = selfName :: rest := by
-  intro sv hsv
-  rcases selfIsReceiver_spec c kw hself with h | ⟨h1, h2, h3⟩
-  · exact h
-  · exfalso
-    have h := res_get' c args kw res hva hkw hpos hps hw selfName
-    have hfp : findP c.ps selfName = none := findP_none_of_not_mem c.ps selfName h2
-    have hci : callerInput c.sig args kw selfName = none := by
-      rw [callerInput_eq, lookupKV_none_of_not_mem _ selfName, lookupKV_none_of_not_mem _ selfName h1]
-      intro hm
-      simp only [List.mem_map] at hm
-      obtain ⟨kv, hkv, hk⟩ := hm
-      have := (List.of_mem_zip hkv).1
-      rw [hk] at this
-      exact h3 this
-    simp only [byNameAt, hfp, hci, ite_self, Except.ok.injEq] at h
-    rw [hsv] at h; cases h
+  | args => simpa using key .split res (Or.inl rfl)
+  | kwWithNone => simpa using key .kw res (Or.inr rfl)
+  | kwWithoutNone => simpa using key .kw (withoutNone res) (Or.inr rfl)
 
 theorem posNames_nodup (sig : Sig) (h : (sig.named.map (·.name)).Nodup) : sig.posNames.Nodup := by
   simp only [Sig.named, List.map_append] at h
@@ -2711,10 +2798,13 @@ def gate_by_name_full : Prop :=
     c.sig.varArgs = false → (kw.map (·.1)).Nodup → (c.sig.named.map (·.name)).Nodup → (c.ps.map (·.name)).Nodup →
     GateByName c a m args kw
 
-/-- **C12 (gate by name), under the decidable guard `selfIsReceiver`.** -/
-theorem gate_by_name_partial (c : Cfg) (a : Bool) (m : Mode) (args : List PV) (kw : List (Name × PV))
-    (hva : c.sig.varArgs = false) (hkw : (kw.map (·.1)).Nodup) (hsig : (c.sig.named.map (·.name)).Nodup)
-    (hps : (c.ps.map (·.name)).Nodup) (hself : selfIsReceiver c kw = true) :
+/-- **C12 (gate by name).** Every function without `*args` — plain function or method, whatever its parameters and the
+    keywords of the call are named (`self` included) —, every Parameter configuration, every mode, sync or async, every call:
+    whatever the body receives for a parameter with a declared Parameter went through a Parameter of that name, or is the
+    function's own default for it.  (Before the repair of `selfKeywordBypassesGate` this needed the guard `selfIsReceiver`:
+    a keyword `self` on a plain function was handed over positionally.) -/
+theorem gate_by_name (c : Cfg) (a : Bool) (m : Mode) (args : List PV) (kw : List (Name × PV))
+    (hva : c.sig.varArgs = false) :
     GateByName c a m args kw := by
   intro b hrun nv hnv p hp
   simp only [runValidate, bind, Except.bind] at hrun
@@ -2723,10 +2813,8 @@ theorem gate_by_name_partial (c : Cfg) (a : Bool) (m : Mode) (args : List PV) (k
   | ok res =>
     rw [hw] at hrun
     simp only at hrun
-    have hnd := wrapperContent_keysNodup c args kw res hw
-    have hselfres := self_in_res c args kw res hva hkw (posNames_nodup c.sig hsig) hps hself hw
     have hinv := res_only_chain_outputs c args kw res hw
-    rw [dispatch_eq_bindDict c.sig a m res hva hnd hselfres] at hrun
+    have hrun := dispatch_ok_bindDict c.sig a m res b hva hrun
     generalize hd : (if m = .kwWithoutNone then withoutNone res else res) = d at hrun
     have hsub : ∀ e ∈ d, e ∈ res := by
       intro e he
@@ -2765,36 +2853,59 @@ theorem gate_by_name_partial (c : Cfg) (a : Bool) (m : Mode) (args : List PV) (k
             exact Or.inr ⟨s, hs, rfl, hdf⟩
           | none => rw [hdf] at hfs; cases hfs
 
+/-- the full statement, proved (its hypotheses about distinct names are not even needed) -/
+theorem gate_by_name_full_proved : gate_by_name_full :=
+  fun c a m args kw hva _ _ _ => gate_by_name c a m args kw hva
+
 /-- `@validate(Parameter('a', required=False, validators=[<rejects everything>]), strict=False,
     return_as=ReturnAs.KWARGS_WITHOUT_NONE)  def f(a=<obj 100>)` — a *plain function* -/
 def exSelfEdge : Cfg :=
   { ps := [⟨2, false, none, none, none, [fun _ => .error (.rejected emptyName)], false, by decide⟩],
     sig := { pos := [⟨2, some (.obj 100)⟩], varArgs := false, kwOnly := [] }, strict := false, ignoreInput := false, req := .noContext }
 
-/-- the call `f(None, self=<obj 101>)`: None passes for the non-required `a` and is dropped by KWARGS_WITHOUT_NONE; the
-    surplus keyword `self` is popped and handed over positionally — the body receives `obj 101` for `a` although the
-    chain of `a` rejects every value -/
-example : runValidate exSelfEdge false .kwWithoutNone [.none] [(selfName, .obj 101)] = .ok ⟨[(2, .obj 101)], []⟩ := by rfl
+/-- a call's outcome as data (the steps of a Parameter are functions, so `Cfg` itself has no decidable equality; outcomes do) -/
+abbrev Outcome := Except VExc Binding
+instance : DecidableEq Outcome := fun x y =>
+  match x, y with
+  | .ok a, .ok b => if h : a = b then isTrue (by rw [h]) else isFalse (by intro hh; cases hh; exact h rfl)
+  | .error a, .error b => if h : a = b then isTrue (by rw [h]) else isFalse (by intro hh; cases hh; exact h rfl)
+  | .ok _, .error _ => isFalse (by intro hh; cases hh)
+  | .error _, .ok _ => isFalse (by intro hh; cases hh)
 
-/-- **negation witness**: without the guard the by-name gate statement is false on the current code (finding
-    `selfKeywordBypassesGate`) -/
-theorem gate_by_name_full_fails : ¬ gate_by_name_full := by
-  intro h
-  have := h exSelfEdge false .kwWithoutNone [.none] [(selfName, .obj 101)] rfl (by decide) (by decide) (by decide)
-    ⟨[(2, .obj 101)], []⟩ rfl (2, .obj 101) (by simp) _ rfl
-  rcases this with ⟨q, hq, _, hfrom⟩ | ⟨s, hs, _, hd⟩
-  · simp only [exSelfEdge, List.mem_singleton] at hq
-    subst hq
-    rcases hfrom with ⟨x, hx, hv⟩ | ⟨_, hd⟩
-    · simp only [rawInputs, List.map_cons, List.map_nil, List.cons_append, List.nil_append, List.mem_cons, List.not_mem_nil,
-        or_false, reduceCtorEq] at hx
-      rcases hx with rfl | rfl
-      · simp [VParam.validate, VParam.isRequired, isRequiredRule] at hv
-      · simp [VParam.validate, runValidators] at hv
-    · simp [Sig.default?, Sig.named, exSelfEdge] at hd
-  · simp only [exSelfEdge, Sig.named, List.append_nil, List.mem_singleton] at hs
-    subst hs
-    simp at hd
+/-- **the former failing input of `selfKeywordBypassesGate`, repaired.**  The call `f(None, self=<obj 101>)`: None passes for
+    the non-required `a` and is dropped by KWARGS_WITHOUT_NONE; the surplus keyword `self` — the function has no receiver — now
+    travels like every other undeclared keyword: it is passed *by name*, Python refuses it (`TypeError`: unexpected keyword) and
+    the body does not run.  Sync and async, all three modes; under `strict` it is `TooManyArguments`.  (Before the repair the
+    keyword was popped and handed over positionally: the body ran with `a = <obj 101>` although the chain of `a` rejects
+    every value.) -/
+theorem fixed_self_keyword :
+    (∀ a ∈ [false, true], ∀ m ∈ [Mode.args, Mode.kwWithNone, Mode.kwWithoutNone],
+      (runValidate exSelfEdge a m [.none] [(selfName, .obj 101)] : Outcome) = .error .bodyTypeError ∧
+      (runValidate { exSelfEdge with strict := true } a m [.none] [(selfName, .obj 101)] : Outcome) = .error .tooMany) ∧
+    exSelfEdge.sig.receiver = none := by decide
+
+/-- a *method* keeps its receiver, passed positionally (`obj.f(v)`) or by keyword (`K.f(self=obj, a=v)`, non-strict):
+    `def f(self, a=<obj 100>)` with `Parameter('a', validators=[v ↦ 8·v + 1])` -/
+def exMethod : Cfg :=
+  { ps := [⟨2, false, none, none, none, [fun v => match v with | .obj i => .ok (.obj (i * 8 + 1)) | .none => .ok .none], false, by decide⟩],
+    sig := { pos := [⟨selfName, none⟩, ⟨2, some (.obj 100)⟩], varArgs := false, kwOnly := [] }, strict := false, ignoreInput := false,
+    req := .noContext }
+example : exMethod.sig.receiver = some selfName := by decide
+example : (runValidate exMethod false .args [.obj 90, .obj 50] [] : Outcome) = .ok ⟨[(selfName, .obj 90), (2, .obj 401)], []⟩ := by decide
+example : (runValidate exMethod true .kwWithoutNone [] [(2, .obj 50), (selfName, .obj 90)] : Outcome)
+    = .ok ⟨[(selfName, .obj 90), (2, .obj 401)], []⟩ := by decide
+-- strict: the receiver bound positionally needs no Parameter; passed by keyword it is an argument without Parameter
+example : (runValidate { exMethod with strict := true } false .args [.obj 90, .obj 50] [] : Outcome)
+    = .ok ⟨[(selfName, .obj 90), (2, .obj 401)], []⟩ := by decide
+example : (runValidate { exMethod with strict := true } false .args [] [(selfName, .obj 90), (2, .obj 50)] : Outcome)
+    = .error .tooMany := by decide
+-- an ordinary parameter called `self` in a non-first position is no receiver: bound by name, and under `strict` it needs a Parameter
+example : (runValidate { exMethod with sig := { pos := [⟨2, none⟩, ⟨selfName, none⟩], varArgs := false, kwOnly := [] } } false .args
+    [.obj 50, .obj 90] [] : Outcome) = .ok ⟨[(2, .obj 401), (selfName, .obj 90)], []⟩ := by decide
+example : (runValidate { exMethod with sig := { pos := [⟨2, none⟩, ⟨selfName, none⟩], varArgs := false, kwOnly := [] }, strict := true }
+    false .args [.obj 50, .obj 90] [] : Outcome) = .error .tooMany := by decide
+-- the hypotheses of `gate_by_name` are satisfiable, and its conclusion speaks about a body that runs
+example : GateByName exMethod false .args [.obj 90, .obj 50] [] := gate_by_name exMethod false .args [.obj 90, .obj 50] [] rfl
 
 /-- the facts the translator reads about `Parameter.validate` and the loop order of `_wrapper_content` -/
 theorem validate_source_shape :
@@ -2901,9 +3012,9 @@ theorem loopKw_error_named (ps : List VParam) (strict : Bool) :
         exact namedBy_of_validate ps q (findP_mem _ _ _ hf) v _ hv
       | ok v' => simp only [hv, bind, Except.bind] at h; exact ih _ _ _ h
 
-theorem loopPos_error_named (ps : List VParam) (strict : Bool) :
+theorem loopPos_error_named (ps : List VParam) (strict : Bool) (recv : Option Name) :
     ∀ (bd : List (Name × PV)) (res : Assoc) (used : List Name) (ua : List PV) (e : VExc),
-      loopPos ps strict bd res used ua = .error e → NamedBy ps e := by
+      loopPos ps strict recv bd res used ua = .error e → NamedBy ps e := by
   intro bd
   induction bd with
   | nil => intro res used ua e h; simp [loopPos, posStrictTest_eq] at h
@@ -3033,8 +3144,8 @@ theorem call_rejection_names_the_rejecting_parameter (c : Cfg) (a : Bool) (m : M
       | ok b =>
         rw [hb] at h
         simp only at h
-        cases h2 : loopPos c.ps c.strict b.named st1.1 st1.2 [] with
-        | error e => rw [h2] at h; simp only [Except.error.injEq] at h; subst h; exact loopPos_error_named _ _ _ _ _ _ _ h2
+        cases h2 : loopPos c.ps c.strict c.sig.receiver b.named st1.1 st1.2 [] with
+        | error e => rw [h2] at h; simp only [Except.error.injEq] at h; subst h; exact loopPos_error_named _ _ _ _ _ _ _ _ h2
         | ok st2 =>
           rw [h2] at h
           simp only at h
@@ -3174,7 +3285,24 @@ theorem loopUnused_renameVar (s : Sig) (n : Name) : ∀ (l : List VParam) (res :
     have hd : (s.renameVar n).default? p.name = s.default? p.name := rfl
     simp only [loopUnused, hd, ih]
 
-theorem dispatch_renameVar (s : Sig) (n : Name) (a : Bool) (m : Mode) (res : Assoc) :
+/-- renaming the VAR_POSITIONAL parameter leaves the receiver alone — unless that parameter is the *first* one of the signature
+    and `self` is one of the two names (`def f(*self)`: the rule "first parameter called self" does not look at the kind) -/
+theorem receiver_renameVar (s : Sig) (n : Name) (h : s.pos ≠ [] ∨ (n ≠ selfName ∧ s.varName ≠ selfName)) :
+    (s.renameVar n).receiver = s.receiver := by
+  rw [receiver_eq_spec, receiver_eq_spec]
+  unfold specReceiver firstParameter
+  cases hp : s.pos with
+  | cons x r => simp [Sig.renameVar, hp]
+  | nil =>
+    cases hv : s.varArgs with
+    | false => cases hk : s.kwOnly <;> simp [Sig.renameVar, hp, hv, hk]
+    | true =>
+      rcases h with h | ⟨h1, h2⟩
+      · exact absurd hp h
+      · simp [Sig.renameVar, hp, hv, h1, h2]
+
+theorem dispatch_renameVar (s : Sig) (n : Name) (a : Bool) (m : Mode) (res : Assoc)
+    (h : s.pos ≠ [] ∨ (n ≠ selfName ∧ s.varName ≠ selfName)) :
     dispatch (s.renameVar n) a m res = dispatch s a m res := by
   have hb : ∀ pos kw, bindCall (s.renameVar n) pos kw = bindCall s pos kw := fun _ _ => rfl
   have hsplit : ∀ r, splitBySig (s.renameVar n) r = splitBySig s r := by
@@ -3182,18 +3310,24 @@ theorem dispatch_renameVar (s : Sig) (n : Name) (a : Bool) (m : Mode) (res : Ass
     cases hva : s.varArgs with
     | true => simp [splitBySig, Sig.renameVar, hva, varPosShortcut]
     | false => simp [splitBySig, Sig.renameVar, hva, prefixNames, sigItems]
-  have hc : ∀ f r, callWith (s.renameVar n) f r = callWith s f r := by
-    intro f r
+  have hc : ∀ rk f r, callWith (s.renameVar n) rk f r = callWith s rk f r := by
+    intro rk f r
     cases f <;> simp only [callWith, hb, hsplit]
-  simp only [dispatch, hc]
+  have hk : receiverKey (s.renameVar n) a = receiverKey s a := by
+    simp only [receiverKey, receiver_renameVar s n h]
+  simp only [dispatch, hc, hk]
 
 /-- **C12/C13 (spelling).** How the VAR_POSITIONAL parameter is called makes no difference: `def f(a, *rest)` is validated
-    and called exactly like `def f(a, *args)` — same outcome, same binding, for every call. -/
-theorem var_positional_spelling_irrelevant (c : Cfg) (n : Name) (a : Bool) (m : Mode) (args : List PV) (kw : List (Name × PV)) :
+    and called exactly like `def f(a, *args)` — same outcome, same binding, for every call.  (Side condition: the function
+    has a named positional parameter in front of it, or neither spelling is `self` — `def f(*self)` would make the tuple
+    parameter the receiver.) -/
+theorem var_positional_spelling_irrelevant (c : Cfg) (n : Name) (a : Bool) (m : Mode) (args : List PV) (kw : List (Name × PV))
+    (h : c.sig.pos ≠ [] ∨ (n ≠ selfName ∧ c.sig.varName ≠ selfName)) :
     runValidate { c with sig := c.sig.renameVar n } a m args kw = runValidate c a m args kw := by
   have hw : wrapperContent { c with sig := c.sig.renameVar n } args kw = wrapperContent c args kw := by
-    simp only [wrapperContent, loopOrder, List.foldlM_cons, List.foldlM_nil, runLoop, bindPartial_renameVar, loopUnused_renameVar]
-  simp only [runValidate, hw, dispatch_renameVar]
+    simp only [wrapperContent, loopOrder, List.foldlM_cons, List.foldlM_nil, runLoop, bindPartial_renameVar, loopUnused_renameVar,
+      receiver_renameVar c.sig n h]
+  simp only [runValidate, hw, dispatch_renameVar _ _ _ _ _ h]
 
 /-- a function without VAR_POSITIONAL parameter never reaches the `zip` branch, whatever its parameters are called -/
 theorem no_zip_without_var_positional (sig : Sig) (args : List PV) (b : Bound) (hva : sig.varArgs = false)
@@ -3332,9 +3466,9 @@ theorem loopKwW_fst (w0 : σ) (ps : List (VParamW σ)) (hps : ∀ p ∈ ps, p.Wo
       | ok x => simp only [bind, Except.bind]; exact ih _ _ w'
       | error e => rfl
 
-theorem loopPosW_fst (w0 : σ) (ps : List (VParamW σ)) (hps : ∀ p ∈ ps, p.WorldIndependent) (strict : Bool) :
+theorem loopPosW_fst (w0 : σ) (ps : List (VParamW σ)) (hps : ∀ p ∈ ps, p.WorldIndependent) (strict : Bool) (recv : Option Name) :
     ∀ (bd : List (Name × PV)) (res : Assoc) (used : List Name) (ua : List PV) (w : σ),
-      (loopPosW ps strict bd res used ua w).1 = loopPos (ps.map (VParamW.erase w0)) strict bd res used ua := by
+      (loopPosW ps strict recv bd res used ua w).1 = loopPos (ps.map (VParamW.erase w0)) strict recv bd res used ua := by
   intro bd
   induction bd with
   | nil => intro res used ua w; rfl
@@ -3444,8 +3578,8 @@ theorem runLoopW_fst (w0 : σ) (c : CfgW σ) (hc : c.WorldIndependent) (args : L
     | error e => rfl
     | ok b =>
       simp only
-      have h2 := loopPosW_fst w0 c.ps hc c.strict b.named st.1 st.2 [] w
-      rcases hp : loopPosW c.ps c.strict b.named st.1 st.2 [] w with ⟨r, w'⟩
+      have h2 := loopPosW_fst w0 c.ps hc c.strict c.sig.receiver b.named st.1 st.2 [] w
+      rcases hp : loopPosW c.ps c.strict c.sig.receiver b.named st.1 st.2 [] w with ⟨r, w'⟩
       rw [hp] at h2
       simp only at h2
       rw [← h2]
